@@ -49,8 +49,10 @@ class JSONRPCError(McpPydanticBase):
 
     def model_post_init(self, __context):
         """Validate error structure."""
-        if self.error:
-            if "code" not in self.error or not isinstance(self.error["code"], int):
+        if self.error is not None:
+            code = self.error.get("code")
+            # (bool is a subclass of int; JSON true/false is not an integer)
+            if not isinstance(code, int) or isinstance(code, bool):
                 raise ValueError("Error must have an integer 'code' field")
             if "message" not in self.error or not isinstance(
                 self.error["message"], str
